@@ -192,3 +192,4 @@ def replay(func, cex):
 
 
 run_scheduler(4, [1, 0, 0, 1, 0, 0, 0, 1, 0], 2)     # warm-up
+nx.is_directed_acyclic_graph(build_cfg(4, [1, 0, 0, 1, 0, 0, 0, 1, 0]))      # networkx compiles this lazily: do it outside tracing
